@@ -17,7 +17,16 @@ def main():
     except ValueError:
         seed = 0
     pid = args.pid.upper()
-    sys.path.insert(0, "/repo")  # the current working tree, whatever the install mode
+    # the current working tree of the repository, whatever the install mode; VERIF_REPO lets the
+    # same checks run against a scratch worktree (used when trying seeded changes) - default /repo
+    repo = os.environ.get("VERIF_REPO", "/repo")
+    sys.path.insert(0, repo)
+    os.environ["PYTHONPATH"] = repo + (os.pathsep + os.environ["PYTHONPATH"] if os.environ.get("PYTHONPATH") else "")
+    import phyclone
+
+    if not os.path.abspath(phyclone.__file__).startswith(os.path.abspath(repo) + os.sep):
+        print("HARNESS-ERROR property=%s phyclone imported from %s, expected under %s" % (pid, phyclone.__file__, repo))
+        sys.exit(2)
     mod = importlib.import_module("mc.checks.%s" % pid.lower())
     if args.replay:
         sys.exit(mod.replay(args.replay))
